@@ -145,6 +145,18 @@ func c05WalkReader(r *pdf.Reader, st *c05Stats) {
 						}
 					}
 				}
+				// the streaming reader has its own walker
+				if tree, err := nametree.ExtractFromFile(r, nd["Dests"]); err == nil && tree != nil {
+					k := 0
+					for range tree.All() {
+						k++
+						if k > 2000 {
+							break
+						}
+					}
+					tree.Lookup(pdf.Name("dest-0001"))
+				}
+				nametree.Size(r, nd["Dests"])
 			}
 		}
 	}
@@ -488,6 +500,16 @@ func TestVerifC05(t *testing.T) {
 		})
 	}
 
+	r.Phase("crafted", r.N(400, 20000)/max(1, btoi05(os.Getenv("VERIF_C05_SMALL") != "")*20), func(c *kit.Case) {
+		data, what := c05Crafted(c.Rng)
+		c05Run(c, mon, data, "crafted:"+what)
+		c.R.Seen("crafted-patterns", strings.SplitN(what, "(", 2)[0])
+		c.Distinct(what + fmt.Sprint(c.Rng.Uint64()))
+		if c.WantSample() {
+			c.Sample(map[string]any{"crafted": what, "bytes": len(data)})
+		}
+	})
+
 	r.Phase("mutations", n, func(c *kit.Case) {
 		i := c.Rng.Intn(len(seeds))
 		var data []byte
@@ -527,6 +549,120 @@ func c05RepeatOnly(r *kit.Rand, data []byte, size int) ([]byte, string) {
 			return b, what
 		}
 	}
+}
+
+// c05Crafted builds files around known amplification patterns: shared and
+// cyclic /Kids (page tree, name tree), outline cycles, xref streams with many
+// /Index subsections over a highly compressible body, object streams with
+// absurd /N.
+func c05Crafted(r *kit.Rand) ([]byte, string) {
+	h := &kit.XHistory{Version: "1.7"}
+	rev := kit.XRev{Actions: map[uint32]kit.XAction{}, Kind: kit.Pick(r, []string{"table", "stream"})}
+	cat := kit.XDict{"Type": kit.XName("Catalog"), "Pages": kit.XRef{Num: 2}}
+	rev.Actions[1] = kit.XAction{Value: cat}
+	pagesRoot := kit.XDict{"Type": kit.XName("Pages"), "Kids": kit.XArray{}, "Count": int64(0)}
+	rev.Actions[2] = kit.XAction{Value: pagesRoot}
+	next := uint32(3)
+	alloc := func() uint32 { n := next; next++; return n }
+	levels := kit.Pick(r, []int{8, 20, 40, 64, 200})
+	fan := kit.Pick(r, []int{2, 2, 3, 16})
+	what := ""
+	switch k := r.Intn(6); k {
+	case 0, 1: // a name (or number) tree whose every level lists the same child several times
+		key, leafKey := "Names", "Names"
+		what = fmt.Sprintf("name-tree-shared-kids(levels=%d,fan=%d)", levels, fan)
+		nodes := make([]uint32, levels+1)
+		for i := range nodes {
+			nodes[i] = alloc()
+		}
+		for i := 0; i < levels; i++ {
+			kids := kit.XArray{}
+			for j := 0; j < fan; j++ {
+				kids = append(kids, kit.XRef{Num: nodes[i+1]})
+			}
+			d := kit.XDict{"Kids": kids}
+			if i > 0 {
+				d["Limits"] = kit.XArray{kit.XString("a"), kit.XString("a")}
+			}
+			rev.Actions[nodes[i]] = kit.XAction{Value: d}
+		}
+		leaf := kit.XDict{leafKey: kit.XArray{kit.XString("a"), int64(1)}, "Limits": kit.XArray{kit.XString("a"), kit.XString("a")}}
+		if r.Chance(1, 4) {
+			leaf["Kids"] = kit.XArray{kit.XRef{Num: nodes[0]}} // and a cycle back to the root
+			what += "+cycle"
+		}
+		rev.Actions[nodes[levels]] = kit.XAction{Value: leaf}
+		cat[key] = kit.XDict{"Dests": kit.XRef{Num: nodes[0]}}
+		if k == 1 {
+			cat["PageLabels"] = kit.XRef{Num: nodes[0]}
+		}
+	case 2: // page tree with shared kids
+		what = fmt.Sprintf("page-tree-shared-kids(levels=%d,fan=%d)", levels, fan)
+		nodes := make([]uint32, levels+1)
+		nodes[0] = 2
+		for i := 1; i <= levels; i++ {
+			nodes[i] = alloc()
+		}
+		for i := 0; i < levels; i++ {
+			kids := kit.XArray{}
+			for j := 0; j < fan; j++ {
+				kids = append(kids, kit.XRef{Num: nodes[i+1]})
+			}
+			d := kit.XDict{"Type": kit.XName("Pages"), "Kids": kids, "Count": int64(1 << 20)}
+			if i > 0 {
+				d["Parent"] = kit.XRef{Num: nodes[i-1]}
+			}
+			rev.Actions[nodes[i]] = kit.XAction{Value: d}
+		}
+		rev.Actions[nodes[levels]] = kit.XAction{Value: kit.XDict{"Type": kit.XName("Page"), "Parent": kit.XRef{Num: nodes[levels-1]},
+			"MediaBox": kit.XArray{int64(0), int64(0), int64(100), int64(100)}, "Resources": kit.XDict{}}}
+	case 3: // outline with shared and cyclic /First /Next /Last
+		what = fmt.Sprintf("outline-shared-children(levels=%d)", levels)
+		root := alloc()
+		items := make([]uint32, levels)
+		for i := range items {
+			items[i] = alloc()
+		}
+		rev.Actions[root] = kit.XAction{Value: kit.XDict{"Type": kit.XName("Outlines"), "First": kit.XRef{Num: items[0]}, "Last": kit.XRef{Num: items[0]}, "Count": int64(levels)}}
+		for i, n := range items {
+			d := kit.XDict{"Title": kit.XString(fmt.Sprintf("item %d", i)), "Parent": kit.XRef{Num: root}}
+			if i+1 < len(items) {
+				d["First"] = kit.XRef{Num: items[i+1]}
+				d["Last"] = kit.XRef{Num: items[i+1]}
+				d["Next"] = kit.XRef{Num: items[i+1]} // the child is also the sibling: two paths per level
+			} else if r.Bool() {
+				d["Next"] = kit.XRef{Num: items[0]}
+			}
+			rev.Actions[n] = kit.XAction{Value: d}
+		}
+		cat["Outlines"] = kit.XRef{Num: root}
+	case 4: // object stream with absurd /N and /First
+		what = "object-stream-absurd-N"
+		n := alloc()
+		body := []byte("10 0 11 2 ")
+		rev.Actions[n] = kit.XAction{Value: &kit.XStream{Dict: kit.XDict{"Type": kit.XName("ObjStm"),
+			"N": kit.Pick(r, []int64{1 << 20, 1 << 31, 1 << 40, -1}), "First": kit.Pick(r, []int64{10, 0, 1 << 30, -5})}, Raw: append(body, "1 2"...)}}
+	default: // xref stream with many /Index subsections over a compressible body: hand-written bytes
+		sub := kit.Pick(r, []int{100, 1000, 5000})
+		per := kit.Pick(r, []int{200, 2000, 8000})
+		what = fmt.Sprintf("xref-stream-index-amplification(%dx%d)", sub, per)
+		var b bytes.Buffer
+		b.WriteString("%PDF-1.7\n1 0 obj\n<</Type/Catalog/Pages 2 0 R>>\nendobj\n2 0 obj\n<</Type/Pages/Kids[]/Count 0>>\nendobj\n")
+		pos := b.Len()
+		var idx bytes.Buffer
+		for i := 0; i < sub; i++ {
+			fmt.Fprintf(&idx, "%d %d ", 10+i*per*2, per)
+		}
+		raw := kit.Deflate(make([]byte, sub*per*4))
+		size := 10 + sub*per*2 + 1
+		fmt.Fprintf(&b, "3 0 obj\n<</Type/XRef/Size %d/W[1 2 1]/Root 1 0 R/Index[0 3 %s]/Filter/FlateDecode/Length %d>>\nstream\n", size, idx.String(), len(raw))
+		b.Write(raw)
+		fmt.Fprintf(&b, "\nendstream\nendobj\nstartxref\n%d\n%%%%EOF\n", pos)
+		return b.Bytes(), what
+	}
+	h.Revs = []kit.XRev{rev}
+	data, _ := kit.RenderHistory(r, h, true, nil)
+	return data, what
 }
 
 func c05Run(c *kit.Case, mon *kit.Monitor, data []byte, what string) {
@@ -577,4 +713,11 @@ func c05Run(c *kit.Case, mon *kit.Monitor, data []byte, what string) {
 	c.R.Count("streams_drained", int64(st.streams))
 	c.R.Count("pages_decoded", int64(st.pages))
 	c.R.Count("fonts_extracted", int64(st.fonts))
+}
+
+func btoi05(b bool) int {
+	if b {
+		return 1
+	}
+	return 0
 }
